@@ -35,9 +35,11 @@ pub fn run(tier: Tier) -> i32 {
         if big || i % 64 == 0 {
             acc.count("files_also_queried_over_a_short_reading_source", 1);
             // ... of the file as received by a sink accepting short and interrupted writes
-            match crate::common::write_file_short(&spec.cfg, &model.entries) {
-                Ok(short_bytes) => {
-                    crate::qcheck::run_queries_io("C02", &spec, &short_bytes, &model, &qs, acc, true);
+            match crate::common::write_files_short(&spec.cfg, &model.entries) {
+                Ok(received) => {
+                    for short_bytes in &received {
+                        crate::qcheck::run_queries_io("C02", &spec, short_bytes, &model, &qs, acc, true);
+                    }
                 }
                 Err(_) => acc.count("prerequisite_failed_writer_error_(C01)", 1),
             }
